@@ -7,6 +7,10 @@ from . import registry as R
 TYPEOF = z3.Function('typeof', z3.IntSort(), z3.IntSort())
 
 
+import re as _re_mod
+_EPOCH_NAME = _re_mod.compile(r'^H\d+_(.*)$')
+
+
 class Val(object):
     __slots__ = ('t', 'z')
 
@@ -358,6 +362,8 @@ class State(object):
             for i, a in enumerate(t.args):
                 self.assume_type(Val(a, dt.accessor(0, i)(v.z)))
             return
+        if t.kind in ('ref', 'list', 'set', 'dict', 'union'):
+            self._entry_wf(v)
         if t.kind == 'ref':
             self.assume(z3.And(v.z >= 0, v.z < self.alloc))
             if t.name in R.CLASSES and t.name != 'object':
@@ -398,6 +404,53 @@ class State(object):
         elif t.kind == 'union':
             self.assume(z3.Implies(T.PyVal.is_o(v.z), z3.And(T.PyVal.o_v(v.z) > 0,
                                                              T.PyVal.o_v(v.z) < self.alloc)))
+
+    def _entry_wf(self, v):
+        """Well-formedness of the heap the function was entered with: a reference stored in a field or container
+        of an object that existed at entry was itself allocated at entry.  Emitted for the value just read as
+        `holder < alloc0 and current slot == slot in the entry heap  ==>  value < alloc0` (the entry heap H0 is
+        unconstrained at addresses >= alloc0, so the fact says nothing about objects allocated later)."""
+        if self.alloc is self.fn_alloc0 or self.fn_alloc0 is None:
+            return
+        z = v.z
+        chain = []
+        while z3.is_app(z) and z.decl().kind() == z3.Z3_OP_DT_ACCESSOR:
+            chain.append(z.decl())
+            z = z.arg(0)
+        if not (z3.is_app(z) and z.decl().kind() == z3.Z3_OP_SELECT):
+            return
+        cur_ids = {a.get_id(): k for k, a in self.heap.items()}
+
+        def heap_key(a):
+            # the current array of a heap key, or the array constant of an earlier havoc epoch (H<e>_<key>)
+            if a.get_id() in cur_ids:
+                return cur_ids[a.get_id()]
+            if z3.is_const(a) and a.decl().kind() == z3.Z3_OP_UNINTERPRETED:
+                m = _EPOCH_NAME.match(a.decl().name())
+                if m:
+                    return m.group(1)
+            return None
+        x, idx = z.arg(0), z.arg(1)
+        twin = holder = None
+        if heap_key(x) is not None:                    # field read  H_f[r]
+            k = heap_key(x)
+            if k.startswith('$'):
+                return
+            twin, holder = z3.Select(z3.Const('H0_' + k, x.sort()), idx), idx
+        elif z3.is_app(x) and x.decl().kind() == z3.Z3_OP_SELECT and heap_key(x.arg(0)) is not None:
+            k = heap_key(x.arg(0))                     # container element  H_arr[c][i]
+            holder = x.arg(1)
+            twin = z3.Select(z3.Select(z3.Const('H0_' + k, x.arg(0).sort()), holder), idx)
+        if twin is None:
+            return
+        cur = z
+        for d in reversed(chain):
+            twin, cur = d(twin), d(cur)
+        if v.t.kind == 'union':
+            bound = z3.Implies(T.PyVal.is_o(cur), T.PyVal.o_v(cur) < self.fn_alloc0)
+        else:
+            bound = cur < self.fn_alloc0
+        self.assume(z3.Implies(z3.And(holder >= 0, holder < self.fn_alloc0, cur == twin), bound))
 
     # ---- containers in the heap
     def llen_key(self, esort):
